@@ -113,6 +113,8 @@ func (r *Run) call(st *State, fr *Frame, x *ssa.Call, b *ssa.BasicBlock, idx int
 		return true
 	}
 	if com.IsInvoke() {
+		// calling a method on a nil interface value panics
+		r.safety(st, fr, "safe.nilrecv", x.Pos(), Neq(args[0].L[0], App("anynil", SAny)))
 		if spec := r.v.methodSpec(com); spec != nil {
 			res := r.applyContract(st, fr, x, nil, spec, spec.Pkg, args, te)
 			fr.regs[x] = res
